@@ -28,7 +28,8 @@ Admits(t) == CASE t = "integer" -> {"int", "null"}
                [] t = "date"    -> {"date", "null"}
                [] t = "any"     -> {"int", "num", "str", "bool", "arr", "obj", "date", "null"}
 
-R1 == [name |-> "res_1", fields |-> <<F("a", "integer", {"int"}), F("b", "string", {"str", "null"})>>]
+\* n: an integer field that VARIES inside a key group of a (the median of an even number of integers is a fraction)
+R1 == [name |-> "res_1", fields |-> <<F("a", "integer", {"int"}), F("b", "string", {"str", "null"}), F("n", "integer", {"int"})>>]
 R2 == [name |-> "res_2", fields |-> <<F("a", "integer", {"int"}), F("c", "number", {"num"})>>]
 \* a second resource whose field "a" has ANOTHER type than res_1's: what a step derives for one resource must not be reused for the next
 R3 == [name |-> "res_2", fields |-> <<F("a", "number", {"num"}), F("c", "number", {"num"})>>]
@@ -72,7 +73,7 @@ Steps == [k : {"add_field"}, t : {"integer", "string"}]
          \cup [k : {"delete_b", "select_a", "rename_a", "rename_swap", "set_type_a_number", "set_type_a_string", "filter", "sort", "dedup",
                     "duplicate", "delete_first", "concatenate", "concat_head", "concat_tail", "source", "unpivot_b", "find_replace_b", "validate"}]
          \cup [k : {"acf_chain"}, first : {<<"a">>, <<"a", "c">>}, op2 : {"sum", "min", "format"}]       \* one call, two fields: cf = sum(first), then cf2 = op2(cf, a)
-         \cup [k : {"join"}, agg : {"sum", "avg", "median", "count", "first", "array", "max"}, f : {"a", "b"}]
+         \cup [k : {"join"}, agg : {"sum", "avg", "median", "count", "first", "array", "max"}, f : {"a", "b", "n"}]
 
 First(pkg) == pkg[1]
 \* concatenate({a: [], b: []}): target fields in the order the selected resources' schemas first show them, typed like that
